@@ -1,4 +1,243 @@
-import NriModel.Basic
-/-! Property theorems for C18 — placeholder until the model is written. -/
+import NriModel.Lemmas.Launch
+/-!
+Property C18 — *pre-installed plugins are launched, configured and reaped as documented*.
+
+Theorems about `Nri.Launch` (model of `discoverPlugins`, `getPluginConfig`,
+`newLaunchedPlugin`, `start`, `startPlugins`, `sortPlugins`, `stop`, with the two repairs
+docs/fixes/C18-1.patch and C18-2.patch) for EVERY directory content, every set of drop-in
+files and every behaviour of the launched processes. What only the operating system decides
+(that `exec` passes exactly descriptors 0–3, that `Kill`/`Wait` remove the process) is
+measured by the probe campaign, not proved here — see docs/C18.md.
+-/
 namespace Nri.Props.C18
+open Nri Nri.Launch
+
+/-! ### which files are launched -/
+
+/-- the scan's notion of a plugin file is the documented one: not a directory, some execute
+    bit, and a name made of a two-digit index, a dash and a name -/
+theorem C18_plugin_shape (e : Entry) :
+    isPlugin e = true ↔
+      e.kind ≠ .dir ∧ hasExecBit e.mode = true ∧
+      ∃ idx base, checkIndex idx = true ∧ e.name = idx ++ ('-' :: base) := by
+  unfold isPlugin candidate
+  constructor
+  · intro h
+    simp only [Bool.and_eq_true, decide_eq_true_eq, ne_eq, Option.isSome_iff_exists] at h
+    obtain ⟨⟨hk, hx⟩, ⟨⟨i, b⟩, hp⟩⟩ := h
+    obtain ⟨hn, hi⟩ := parsePluginName_some hp
+    exact ⟨hk, hx, i, b, hi, hn⟩
+  · rintro ⟨hk, hx, i, b, hi, hn⟩
+    simp only [Bool.and_eq_true, decide_eq_true_eq, ne_eq]
+    refine ⟨⟨hk, hx⟩, ?_⟩
+    rw [hn, parsePluginName_of_shape hi]
+    rfl
+
+/-- **Launched.** A successful discovery finds exactly the plugin files, in the order of the
+    directory listing (by file name), each once if file names are distinct, each with the
+    exec fact of its own file; and start-up attempts every one of them exactly once, in that
+    order, whatever happened to the ones before. -/
+theorem C18_launched (d : Dropins) (entries : List Entry) (fs : List Found)
+    (h : discover d entries = .ok fs) :
+    fs.map Found.fileName = ((sortByName entries).filter isPlugin).map (·.name) ∧
+    fs.map (·.exec) = ((sortByName entries).filter isPlugin).map (·.exec) ∧
+    (∀ e ∈ entries, isPlugin e = true → e.name ∈ fs.map Found.fileName) ∧
+    ((entries.map (·.name)).Nodup → (fs.map Found.fileName).Nodup) ∧
+    ((startUpOf fs startOne).started.map (·.found) = fs) ∧
+    (∀ s ∈ (startUpOf fs startOne).started, s.process = true ↔ ∃ b, s.found.exec = .runs b) := by
+  unfold discover at h
+  obtain ⟨h1, h2, _⟩ := discoverLoop_ok h
+  refine ⟨h1, h2, ?_, ?_, ?_, ?_⟩
+  · intro e he hp
+    rw [h1]
+    apply List.mem_map_of_mem
+    rw [List.mem_filter]
+    exact ⟨(sortByName_perm entries).mem_iff.mpr he, hp⟩
+  · intro hnd
+    rw [h1]
+    have hsub : (((sortByName entries).filter isPlugin).map (·.name)).Sublist ((sortByName entries).map (·.name)) :=
+      List.Sublist.map _ List.filter_sublist
+    apply List.Nodup.sublist hsub
+    exact ((sortByName_perm entries).map _).nodup_iff.mpr hnd
+  · simp only [startUpOf, List.map_map]
+    rw [List.map_congr_left (g := id)]
+    · simp
+    · intro f _
+      simp only [Function.comp, id]
+      unfold startOne
+      split <;> rfl
+  · intro s hs
+    simp only [startUpOf, List.mem_map] at hs
+    obtain ⟨f, _, rfl⟩ := hs
+    unfold startOne
+    split <;> simp_all
+
+/-- **Start never aborts on names.** With readable drop-ins discovery succeeds for every
+    directory content — a file that is not named `NN-name` is simply not a plugin. -/
+theorem C18_discovery_total (d : Dropins) (entries : List Entry)
+    (hd : ∀ k, AList.lookup d k ≠ some .dir) : ∃ fs, discover d entries = .ok fs :=
+  discoverLoop_total hd _
+
+/-- **Non-plugins are invisible.** Adding a directory, a file without any execute bit or a
+    file whose name is not `NN-name` to the plugin directory changes nothing. -/
+theorem C18_non_plugin_ignored (d : Dropins) (e : Entry) (entries : List Entry)
+    (h : isPlugin e = false) : discover d (e :: entries) = discover d entries := by
+  unfold discover
+  rw [discoverLoop_filter d (sortByName (e :: entries)), discoverLoop_filter d (sortByName entries)]
+  simp only [sortByName]
+  rw [insertByName_filter_of_not _ h]
+
+/-! ### configuration -/
+
+/-- **Drop-in choice.** `NN-name.conf` if it exists, else `name.conf` if it exists, else the
+    empty configuration; and every discovered plugin carries exactly that. -/
+theorem C18_config (d : Dropins) (idx base : Str) :
+    (∀ c, AList.lookup d (idx ++ ('-' :: base) ++ confSuffix) = some (.file c) →
+        configFor d idx base = .ok c) ∧
+    (AList.lookup d (idx ++ ('-' :: base) ++ confSuffix) = none →
+      ∀ c, AList.lookup d (base ++ confSuffix) = some (.file c) → configFor d idx base = .ok c) ∧
+    (AList.lookup d (idx ++ ('-' :: base) ++ confSuffix) = none →
+      AList.lookup d (base ++ confSuffix) = none → configFor d idx base = .ok []) ∧
+    (∀ entries fs, discover d entries = .ok fs → ∀ f ∈ fs, configFor d f.idx f.base = .ok f.cfg) := by
+  refine ⟨?_, ?_, ?_, ?_⟩
+  · intro c h; simp only [configFor, firstConfig, h]
+  · intro h c h2; simp only [configFor, firstConfig, h, h2]
+  · intro h h2; simp only [configFor, firstConfig, h, h2]
+  · intro entries fs h f hf
+    exact ((discoverLoop_ok h).2.2 f hf).2
+
+/-! ### environment and descriptors -/
+
+/-- **Environment.** The child is given exactly three variables — its name, its index, and
+    `3` as the number of the pre-connected socket — and exactly one file beyond
+    stdin/stdout/stderr, so descriptors 0…3; name and index are the two parts of the file name. -/
+theorem C18_env (idx base : Str) :
+    childEnv idx base = [(envName, base), (envIdx, idx), (envSocket, "3".toList)] ∧
+    childFds = [0, 1, 2, 3] ∧
+    (checkIndex idx = true → parsePluginName (idx ++ ('-' :: base)) = some (idx, base)) := by
+  refine ⟨rfl, by decide, parsePluginName_of_shape⟩
+
+/-! ### order -/
+
+/-- **Order.** Plugins are launched in index order, and the active plugins in launch order
+    are sorted by index — so the order `sortPlugins` produces (any index-sorted permutation)
+    invokes them in index order. -/
+theorem C18_order (d : Dropins) (entries : List Entry) (fs : List Found)
+    (h : discover d entries = .ok fs) :
+    fs.Pairwise (fun a b => idxVal a.idx ≤ idxVal b.idx) ∧
+    sortedByIdx (startUpOf fs startOne).active = true := by
+  unfold discover at h
+  obtain ⟨h1, _, h3⟩ := discoverLoop_ok h
+  have hsorted : ((sortByName entries).filter isPlugin).Pairwise nameLe :=
+    List.Pairwise.sublist List.filter_sublist (sortByName_pairwise entries)
+  have hnames : (fs.map Found.fileName).Pairwise (fun a b => strLe a b = true) := by
+    rw [h1, List.pairwise_map]
+    exact hsorted
+  rw [List.pairwise_map] at hnames
+  have hfs : fs.Pairwise (fun a b => idxVal a.idx ≤ idxVal b.idx) := by
+    apply List.Pairwise.imp_of_mem _ hnames
+    intro a b ha hb hle
+    exact idx_le_of_name_le (h3 a ha).1 (h3 b hb).1 hle
+  refine ⟨hfs, pairwise_sortedByIdx ?_⟩
+  simp only [startUpOf]
+  rw [List.pairwise_map]
+  apply List.Pairwise.sublist List.filter_sublist
+  rw [List.pairwise_map]
+  apply List.Pairwise.imp _ hfs
+  intro a b hab
+  have : ∀ f, (startOne f).found = f := by
+    intro f; unfold startOne; split <;> rfl
+  simpa [this] using hab
+
+/-! ### failing plugins -/
+
+/-- a plugin that comes up and stays -/
+def good (f : Found) : Bool := f.exec = .runs .ok || f.exec = .runs .diesLater
+
+/-- **Skip.** Whatever the other plugins do: (1) the active plugins are exactly the
+    discovered ones that come up, in launch order — a plugin that cannot be executed, exits
+    at once, never registers, refuses its configuration or fails to synchronise is absent and
+    nothing else changes; (2) a plugin that comes up sees its start, its configuration, the
+    synchronisation and every request, in this order; one that dies after the first request
+    sees no later request; (3) every process that was created has been stopped (killed and
+    waited for) by the time the runtime has stopped. -/
+theorem C18_skip (fs : List Found) (reqs : Nat) :
+    (startUpOf fs startOne).active = fs.filter good ∧
+    (∀ s ∈ (startUpOf fs startOne).started, s.found.exec = .runs .ok →
+        eventsOf s reqs = [Ev.start, Ev.configure, Ev.synchronize] ++ (List.range reqs).map fun i => Ev.create (i + 1)) ∧
+    (∀ s ∈ (startUpOf fs startOne).started, s.found.exec = .runs .diesLater → 0 < reqs →
+        eventsOf s reqs = [Ev.start, Ev.configure, Ev.synchronize, Ev.create 1]) ∧
+    (∀ s ∈ (startUpOf fs startOne).started, ¬ good s.found = true →
+        ∀ n, Ev.create n ∉ eventsOf s reqs) ∧
+    (∀ s ∈ (startUpOf fs startOne).started, s.process = true → stoppedEventually s = true) := by
+  have hfound : ∀ f, (startOne f).found = f := by
+    intro f; unfold startOne; split <;> rfl
+  refine ⟨?_, ?_, ?_, ?_, ?_⟩
+  · simp only [startUpOf, List.filter_map, List.map_map]
+    have : (syncOk ∘ startOne) = good := by
+      funext f
+      simp only [Function.comp, syncOk, good]
+      unfold startOne
+      cases hex : f.exec with
+      | cannot => simp
+      | runs b => cases b <;> simp [hex]
+    rw [this]
+    rw [List.map_congr_left (g := id)]
+    · simp
+    · intro f _; simp [hfound]
+  · intro s hs hex
+    simp only [startUpOf, List.mem_map] at hs
+    obtain ⟨f, _, rfl⟩ := hs
+    rw [hfound] at hex
+    simp [eventsOf, startOne, hex, syncOk]
+  · intro s hs hex hreq
+    simp only [startUpOf, List.mem_map] at hs
+    obtain ⟨f, _, rfl⟩ := hs
+    rw [hfound] at hex
+    have : reqs ≠ 0 := by omega
+    simp [eventsOf, startOne, hex, syncOk, this]
+  · intro s hs hbad n
+    simp only [startUpOf, List.mem_map] at hs
+    obtain ⟨f, _, rfl⟩ := hs
+    rw [hfound] at hbad
+    simp only [good, Bool.or_eq_true, decide_eq_true_eq, not_or] at hbad
+    unfold eventsOf startOne syncOk
+    cases hex : f.exec with
+    | cannot => simp
+    | runs b => cases b <;> simp_all
+  · intro s hs hp
+    simp only [startUpOf, List.mem_map] at hs
+    obtain ⟨f, _, rfl⟩ := hs
+    unfold stoppedEventually
+    unfold startOne at hp ⊢
+    split <;> simp_all
+
+/-! ### the unrepaired code (witnesses; DESIGN §6 #14 and the unreaped child) -/
+
+def exEntry (name : String) (b : Behaviour) : Entry :=
+  { name := name.toList, kind := .file, mode := 0o755, exec := .runs b }
+
+/-- Unrepaired `discoverPlugins`: an executable `README` next to `10-x` makes the whole
+    discovery fail — `10-x` is never launched. The repaired scan launches it. -/
+theorem unfixed_misnamed_aborts :
+    failure (discoverUnfixed [] [exEntry "README" .ok, exEntry "10-x" .ok]) = some .invalidName ∧
+    (discover [] [exEntry "README" .ok, exEntry "10-x" .ok]).toOption.map (·.map Found.fileName)
+      = some ["10-x".toList] := by
+  decide
+
+/-- Unrepaired `start`: a plugin that exits before registering is never waited for. -/
+theorem unfixed_exit_not_reaped :
+    stoppedEventually (startOneUnfixed ⟨"10".toList, "x".toList, [], .runs .exitsAtOnce⟩) = false ∧
+    stoppedEventually (startOne ⟨"10".toList, "x".toList, [], .runs .exitsAtOnce⟩) = true := by
+  decide
+
+/-! ### the hypotheses are satisfiable -/
+
+example : ∃ fs, discover [("10-a.conf".toList, .file "A".toList), ("b.conf".toList, .file "B".toList)]
+    [exEntry "20-b" .exitsAtOnce, exEntry "10-a" .ok,
+     { name := "sub".toList, kind := .dir, mode := 0o755, exec := .cannot },
+     { name := "30-c".toList, kind := .file, mode := 0o644, exec := .cannot }] = .ok fs ∧
+    fs.map Found.fileName = ["10-a".toList, "20-b".toList] ∧ fs.map (·.cfg) = ["A".toList, "B".toList] := by
+  refine ⟨_, rfl, ?_, ?_⟩ <;> decide
+
 end Nri.Props.C18
